@@ -479,10 +479,73 @@ def batch_secp256k1(ctx):
     return st
 
 
+# ------------------------------------------------------------------------------------------------ held-key signers
+def _ssa_signer_shard(arg):
+    names, seed = arg
+    from btclib.curves import CURVES, secp256k1
+    from btclib.ecc import ssa
+
+    st = Stats()
+    errs = lib_errors()
+    for name in names:
+        ec = CURVES[name]
+        n = ec.n
+        for serving in ((True, False) if ec == secp256k1 else (False,)):
+            with backend(serving):
+                for hfname in ("sha256", "sha3_256", "blake2s", "sha512", "sha1", "sha224"):
+                    hf = getattr(hashlib, hfname)
+                    hlen = hf().digest_size
+                    for q in (1, n - 1, int.from_bytes(hashlib.sha512(b"ss%d" % seed).digest(), "big") % n or 1):
+                        case0 = {"curve": name, "hf": hfname, "q": hex(q)[:14], "bindings": serving}
+                        try:
+                            signer = ssa.Signer(q, ec, hf)
+                        except errs:
+                            st.outcomes[("signer-refused", name, hfname)] += 1
+                            continue
+                        for msg in (b"", bytes(32), b"x" * 70):
+                            for aux in (bytes(hlen), bytes(range(hlen))):
+                                for spelling in ("sign_", "sign"):
+                                    st.evals += 1
+                                    if hfname != "sha256" or ec != secp256k1:
+                                        st.nontrivial += 1
+                                    case = dict(case0, msg_len=len(msg), spelling=spelling)
+                                    try:
+                                        free = ssa.sign_(msg, q, aux, ec, hf) if spelling == "sign_" else ssa.sign(msg, q, aux, ec, hf)
+                                    except errs:
+                                        st.outcomes[("free-refused", name, hfname)] += 1
+                                        continue
+                                    try:
+                                        held = signer.sign_(msg, aux) if spelling == "sign_" else signer.sign(msg, aux)
+                                    except errs as e:
+                                        st.violation("C03/signer/refuses-what-the-free-function-signs/" + spelling, case, repr(e)[:80], "a signature")
+                                        continue
+                                    except Exception as e:  # noqa: BLE001
+                                        st.violation("C03/signer/foreign-exception/" + spelling, case, repr(e)[:80], "a signature")
+                                        continue
+                                    if bytes(held) != free.serialize():
+                                        st.violation("C03/signer/differs-from-free-function/" + spelling, case, bytes(held).hex()[:24], free.serialize().hex()[:24])
+                                    try:
+                                        ok = ssa.verify_(msg, signer.pub_key if hasattr(signer, "pub_key") else None, held, hf) if False else None
+                                    except Exception:  # noqa: BLE001
+                                        ok = None
+                        signer.wipe()
+    return st
+
+
+def held_key_signers(ctx):
+    from btclib.curves import CURVES
+
+    names = sorted(CURVES)
+    if ctx.quick:
+        names = [nm for nm in names if nm in ("secp256k1", "secp256r1", "secp160r1", "secp112r2", "secp192k1")] or names[:5]
+    return ctx.pmap(_ssa_signer_shard, [([nm], ctx.seed) for nm in names])
+
+
 SUBS = [
     ("toy", toy),
     ("public_api", public_api),
     ("secp256k1", secp256k1),
     ("batch", batch),
     ("batch_secp256k1", batch_secp256k1),
+    ("held_key_signers", held_key_signers),
 ]
